@@ -177,7 +177,7 @@ def check_case(case, ctx):
 
 
 def reach(counters, tier, info):
-    k = 1 if tier == "quick" else 20
+    k = 0.5 if tier == "quick" else 20
     out = []
     for name, key, need in [("pairs judged", "pairs", 4000 * k),
                             ("equal-by-construction pairs whose textual forms differ", "equal_text_differs", 300 * k),
